@@ -1081,6 +1081,34 @@ fn random_history(rng: &mut StdRng, t: &mut Tracer, steps: usize, idx: usize) {
     }
 }
 
+/// a deployment upgraded from v1.2.0 whose pool records carry their reserves in alphabetical order although the pools were
+/// created in another order (what releases before the repair of F10 stored): swaps, deposits and withdrawals keep working
+fn sc_upgraded_legacy_records(t: &mut Tracer) {
+    let mut w = PW::new(SysCfg { admin: true, ..Default::default() }, t, "upgraded_legacy_records");
+    let (o, a, tr) = (w.user(0), w.user(1), w.user(2));
+    let ok = w.creation_funds();
+    let half = Some(Decimal::percent(50));
+    w.create_pool(&o, &["uusdt", "uusdc"], &[6, 6], fees(100, 200, 50, &[]), CP, Some("zc"), &ok);
+    w.create_pool(&o, &["uweth", "uusd", "uom"], &[18, 6, 6], fees(30, 40, 10, &[]), SS(85), Some("zs"), &ok);
+    w.provide(&a, "o.zc", &sorted(vec![coin(2_000_000_000, "uusdc"), coin(3_000_000_000, "uusdt")]), None, None, None, None, None);
+    w.provide(&a, "o.zs", &sorted(vec![coin(1_000_000_000, "uom"), coin(1_100_000_000, "uusd"), coin(900_000_000_000_000_000_000, "uweth")]), None, None, None, None, None);
+    let n = w.s.downgrade_pool_manager_storage_with(true);
+    let r = w.s.try_migrate("pm", "pm", &o);
+    let post = w.s.snapshot(w.mask);
+    w.t.emit("pm_upgrade", json!({"ok": r.is_ok() && n.is_ok(), "errtext": r.err().unwrap_or_default(), "post": post}));
+    for amt in [10_000u128, 5_000_000] {
+        w.swap(&tr, "o.zc", &[coin(amt, "uusdt")], "uusdc", None, half, None);
+        w.swap(&tr, "o.zc", &[coin(amt, "uusdc")], "uusdt", None, half, None);
+        w.swap(&tr, "o.zs", &[coin(amt, "uusd")], "uom", None, half, None);
+        w.swap(&tr, "o.zs", &[coin(amt, "uom")], "uweth", None, half, None);
+    }
+    w.provide(&a, "o.zc", &sorted(vec![coin(2_000_000, "uusdc"), coin(3_000_000, "uusdt")]), None, None, None, None, None);
+    w.provide(&a, "o.zc", &[coin(10_001, "uusdt")], None, None, None, None, half);
+    let lpd = w.s.lp_denom("o.zc");
+    w.withdraw(&a, "o.zc", &[coin(1_000_000, lpd)]);
+    w.route(&tr, &[h2("o.zc", "uusdc", "uusdt")], &[coin(77_000, "uusdc")], None, None, half);
+}
+
 /// C04: offers at which (fee share x the fraction the gross output's floor discards) carries into the next unit - a fee
 /// computed from anything but the integer gross output is one unit off exactly there. Shares with numerators above one.
 fn sc_fee_floor_boundaries(t: &mut Tracer) {
@@ -1142,6 +1170,7 @@ pub fn run(rng: &mut StdRng, thorough: bool, t: &mut Tracer) {
         sc_long_route(t);
     }
     sc_fee_floor_boundaries(t);
+    sc_upgraded_legacy_records(t);
     let (n, steps) = if thorough { (30, 150) } else { (5, 80) };
     for i in 0..n {
         random_history(rng, t, steps, i);
